@@ -60,7 +60,7 @@ struct Runner<'a> {
     /// held children in queue order (collections: deque order; adapters: pull order; joins: input order)
     queue: VecDeque<u32>,
     /// merges: held sources
-    sources: Vec<u32>,
+    sources: std::collections::BTreeSet<u32>,
     /// effective capacity of bounded subjects
     capn: usize,
     done: bool,
@@ -381,10 +381,10 @@ impl<'a> Runner<'a> {
                 }
                 // sources that ended in this call leave the model
                 let ended: Vec<u32> = with(|w| {
-                    self.sources
+                    w.completed_ids_call
                         .iter()
                         .copied()
-                        .filter(|&s| w.children[s as usize].completed_at.is_some())
+                        .filter(|s| self.sources.contains(s))
                         .collect()
                 });
                 for s in ended {
@@ -399,7 +399,7 @@ impl<'a> Runner<'a> {
                             format!("{}: source {} ended but not all of its items were yielded", ctx, s),
                         );
                     }
-                    self.sources.retain(|&x| x != s);
+                    self.sources.remove(&s);
                 }
                 match last {
                     Last::End => {
@@ -518,7 +518,9 @@ impl<'a> Runner<'a> {
                         }
                     }
                     Last::Pending => {
-                        if up_ended && self.queue.is_empty() {
+                        // "exhausted" is a fact about upstream, whether or not the adapter has asked
+                        let exhausted = with(|w| w.up.pos == w.up.script.len());
+                        if (up_ended || (exhausted && n >= 1)) && self.queue.is_empty() {
                             self.violate(
                                 "C10",
                                 "pending-when-done",
@@ -678,15 +680,13 @@ impl<'a> Runner<'a> {
             // most (entries ahead) x (groups): linear in the held children.
             let stale = w.stale_backlog;
             let bound = (peak as u64 + 2) * (g as u64 + 1) + ((stale + 60) / 61) * (g as u64 + 1) + 8;
-            for i in w.live_children() {
-                if w.children[i as usize].needs_poll {
-                    if last == Last::Pending && !task_woken {
-                        lost.push(i);
-                    }
-                    let waited = poll_no - w.children[i as usize].needs_since;
-                    if waited > maxwait {
-                        maxwait = waited;
-                    }
+            if !w.subject_gone {
+                if last == Last::Pending && !task_woken {
+                    lost = w.owed_polls.iter().take(8).map(|&(_, i)| i).collect();
+                }
+                if let Some(&(since, i)) = w.owed_polls.iter().next() {
+                    let waited = poll_no - since;
+                    maxwait = waited;
                     if waited > bound {
                         starved.push((i, waited));
                     }
@@ -1065,12 +1065,18 @@ impl<'a> Runner<'a> {
                     w.accept(id);
                     w.log(0x40, id as u64);
                 });
+                let h = held_now();
+                if h > self.res.peak_held {
+                    self.res.peak_held = h;
+                }
                 match self.class {
                     Class::Collection => match how {
                         PushHow::Front | PushHow::TryFront => self.queue.push_front(id),
                         _ => self.queue.push_back(id),
                     },
-                    _ => self.sources.push(id),
+                    _ => {
+                        self.sources.insert(id);
+                    }
                 }
             }
             PushOut::Refused(rid) => {
@@ -1146,6 +1152,10 @@ impl<'a> Runner<'a> {
                         w.log(0x40, id as u64);
                     });
                     self.queue.push_back(id);
+                }
+                let h = held_now();
+                if h > self.res.peak_held {
+                    self.res.peak_held = h;
                 }
             }
             Err(p) => {
@@ -2032,6 +2042,7 @@ fn run_inner(cfg: &Config, trace: &[Op]) -> RunResult {
     with(|w| {
         w.nd_children = cfg.shape & 1 != 0 && matches!(class, Class::Collection | Class::Join);
         w.raw_outputs = cfg.shape & 2 != 0 && matches!(class, Class::Collection | Class::Join);
+        w.inexact_iter = cfg.inexact_iter;
         w.limit = cfg.cap;
         w.up.script = cfg.upstream.clone();
         w.up.released = cfg.up_released.min(cfg.upstream.len());
@@ -2061,7 +2072,7 @@ fn run_inner(cfg: &Config, trace: &[Op]) -> RunResult {
         subj: None,
         class,
         queue: VecDeque::new(),
-        sources: vec![],
+        sources: Default::default(),
         capn: if needs_initial && cfg.subject.bounded() { initial.len() } else { cfg.cap },
         done: false,
         next_task: 0,
@@ -2074,7 +2085,7 @@ fn run_inner(cfg: &Config, trace: &[Op]) -> RunResult {
         vacant_pops_seen: 0,
     };
     match class {
-        Class::Merge => r.sources = initial.clone(),
+        Class::Merge => r.sources = initial.iter().copied().collect(),
         Class::Adapter => {}
         _ => r.queue = initial.iter().copied().collect(),
     }
@@ -2097,6 +2108,7 @@ fn run_inner(cfg: &Config, trace: &[Op]) -> RunResult {
         }
     }
     r.allocs_ctor = F.with(|f| f.allocs_in_crate.get());
+    r.res.peak_held = held_now();
     if !r.dead {
         r.after_op();
         for (i, op) in trace.iter().enumerate() {
